@@ -226,6 +226,11 @@ func (ap *AP) S(size int, slices ...Slice) (newAP AP, ndStart, ndEnd int, err er
 
 	var outerDim int
 	order := ap.o
+	if ap.o.IsTransposed() {
+		// a view of a lazily transposed tensor addresses its window through permuted strides:
+		// it is never a contiguous run of the parent's storage
+		order = MakeDataOrder(order, NonContiguous)
+	}
 	if ap.o.IsRowMajor() || ap.IsVector() {
 		outerDim = 0
 	} else {
